@@ -14,8 +14,13 @@ from . import c14
 
 
 def is_stdout_write(n):
-    return bool(re.search(r"<(std::io::)?(StdoutLock<.*>|Stdout) as (std::io::)?Write>::(write_all|write|write_fmt)$", n)) or \
+    return bool(re.search(r"<(std::io::)?(StdoutLock<.*>|Stdout) as (std::io::)?Write>::(write_all|write|write_fmt|write_vectored)$", n)) or \
         n in ("std::io::_print", "_print", "std::io::stdio::_print")
+
+
+def is_complete_stdout_write(n):
+    """only write_all guarantees that the whole buffer is written"""
+    return bool(re.search(r"<(std::io::)?(StdoutLock<.*>|Stdout) as (std::io::)?Write>::write_all$", n))
 
 
 def is_stderr_write(n):
@@ -62,6 +67,11 @@ def concrete_battery(binp, X=()):
     if r["out"] != src: v = "ignored stdin path is not passed through unchanged"
     elif r["rc"] != 0: v = f"exit status {r['rc']} for an ignored stdin path"
     out.append(("ignored-passthrough", v, r))
+    long_src = "local   x   =   1\nlocal s = \"" + "b" * 200000 + "\""
+    r = clireplay.run_cli(binp, {".styluaignore": "ignored.lua\n"}, X + ["--respect-ignores", "--stdin-filepath", "ignored.lua", "-"], stdin=long_src)
+    v = None
+    if r["out"] != long_src: v = f"long pass-through truncated/changed: {len(r['out'])} of {len(long_src)} bytes"
+    out.append(("ignored-passthrough-long", v, r))
     r = clireplay.run_cli(binp, {".styluaignore": "ignored.lua\n"}, X + ["--stdin-filepath", "ignored.lua", "-"], stdin=src)
     v = None
     if r["out"] != want: v = "without --respect-ignores the stdin text must be formatted"
@@ -136,7 +146,7 @@ def run(ses, rep):
     logger = clistatus.find_logger(funcs)
     outcl = clistatus.find_output_closure(funcs)
     for kind in ("SuccessBufferedOutput", "Err", "Complete"):
-        ex2 = ses.executor("bin", "default", inline=lambda n_, f: False)
+        ex2 = ses.executor("bin", "default", inline=clihooks.inline_cli_helpers)
         item = clistatus.format_result(ex2, kind)
         ex2.hooks = clistatus.make_hooks(funcs, [item], logger)
         env = ex2.fresh_lazy(outcl.params[0][1], "closure-env")
@@ -147,14 +157,14 @@ def run(ses, rep):
             oid = f"output-thread/{kind}/path{pi}/stdout"
             if kind == "SuccessBufferedOutput":
                 bytes_ = item.fields[0].fields[0]
-                good = len(ws) == 1 and any(derives_from(ex2, a, bytes_.oid, 0, o.state) for a in ws[0][1])
+                good = len(ws) == 1 and is_complete_stdout_write(ws[0][0]) and any(derives_from(ex2, a, bytes_.oid, 0, o.state) for a in ws[0][1])
                 r, m = ses.obligation(oid, list(o.pc), z3.BoolVal(not good), "exactly one write_all(buffer) to stdout")
                 if r == "sat":
-                    flagged.append((oid, "stdout does not receive exactly the buffer (once)", "valid"))
+                    flagged.append((oid, "stdout does not receive exactly the buffer (once, completely)", "valid", outfmt_flags(ex2, env, m)))
             else:
                 r, m = ses.obligation(oid, list(o.pc), z3.BoolVal(len(ws) != 0), "nothing is written to stdout")
                 if r == "sat":
-                    flagged.append((oid, f"stdout written for a {kind} result", "parse-error" if kind == "Err" else "valid"))
+                    flagged.append((oid, f"stdout written for a {kind} result", "parse-error" if kind == "Err" else "valid", outfmt_flags(ex2, env, m)))
     # stdin worker closure: calls format_string and sends its result
     cl = [f for n_, l in funcs.items() for f in l if "{closure" in n_ and
           any(s[0] == "call" and canon(s[2]).split("::")[-1] == "format_string" for sts in f.blocks.values() for s in sts)]
@@ -171,6 +181,16 @@ def run(ses, rep):
             rep.add(f"{f.name}/path{pi}/explored", "unsat", "no fs mutation / stdout write in the stdin worker closure") if not find_calls(o.trace, lambda n_: clihooks.is_fs_mutation(n_) or is_stdout_write(n_)) else None
             rep.queries += 0
     confirm(rep, flagged)
+
+
+def outfmt_flags(ex, env, m):
+    """--output-format value the model needs (the output closure captures output_format)"""
+    from . import c13
+    outfmt = None
+    for k_, v_ in ex.lazy_tab.items():
+        if isinstance(v_, Lazy) and "OutputFormat" in v_.ty and k_[0] == env.oid:
+            outfmt = v_
+    return c13.flags_for_outfmt(ex, m, outfmt)
 
 
 def identity_bytes(ex, st, callee, args, dty):
